@@ -70,6 +70,9 @@ func judgeEngine(c *mc.Ctx, ec *engineCase, count bool) []sm.Problem {
 			} else if !ec.Root.Wait {
 				act += "+" + cf.Actions[ec.Root.B].Name
 			}
+			if d == "last_seen_on" {
+				act = "any" // last seen comes from the received message, not from an action
+			}
 			add("engine:"+callClass+":events-do-not-reproduce-contact:"+d+":actions="+act,
 				"replaying the sprint's events over the contact before does not reproduce the contact after (differs in %s)\nreplayed: %s\nactual:   %s\nevents: %s", d, ref, after, strings.Join(o.EventTypes, ","))
 		}
